@@ -114,4 +114,27 @@ theorem mvp2_terminates_bounded (app : App) (hw : WfApp app) (ctx : Model.Contex
   rw [h21.2.2.1]
   exact Int.le_trans h21.2.2.2 h1
 
+/-! ### MVP-3 (work package MVP3) -/
+
+/-- **C07 for MVP-3**: if the sequential run of a parsed program ends (by `ret`, by running past the end, or with a
+defined error) after `steps` instructions, the run of MVP-3 returns the same way — an error value for a defined
+error, never a Go panic (in particular never `panic("cache line doesn't exist")`), never fuel exhaustion — after the
+same number of instructions; and for EVERY run the cycle count is bounded by a fixed multiple of the number of
+executed instructions times the slowest memory latency, plus the final flush of at most 16 lines. -/
+theorem mvp3_terminates_bounded (app : App) (hw : WfApp app) (ctx : Model.Context) (m : Spec.Machine)
+    (hR : Rel ctx m) (hsz : m.mem.size + 64 ≤ 2 ^ 31) (fuel : Nat) :
+    Props.C01.AgreeCached (Spec.run (specProg app) m fuel) (Model.Mvp3.runMvp3 app ⟨ctx, 0#32⟩ fuel).toSeq ∧
+    (Model.Mvp3.runMvp3 app ⟨ctx, 0#32⟩ fuel).cycles ≤
+      (Gen.Latency.MemoryAccess + Gen.Consts.mvp3.cyclesDecode + (Gen.Latency.L1Access + Gen.Latency.MemoryAccess) + 50 +
+        Gen.Latency.MemoryAccess) * (Model.Mvp3.runMvp3 app ⟨ctx, 0#32⟩ fuel).steps + 16 * Gen.Latency.MemoryAccess :=
+  ⟨Props.C01.mvp3_correct app hw ctx m hR hsz fuel, Props.C12.mvp3_upper_bound app ⟨ctx, 0#32⟩ fuel⟩
+
+/-- a load from a cold cache, then a division by zero -/
+def exErrApp : App :=
+  { instrs := [.lb_ { rd := 6, offset := 3#32, rs := 0 }, .div_ { rd := 5, rs1 := 6, rs2 := 0 }, .ret_ {}], labels := {} }
+
+/-- Non-vacuity: the model of MVP-3 reports the error value. -/
+example : (Model.Mvp3.runMvp3 exErrApp ⟨{ Memory := List.replicate 8 0#8 }, 0#32⟩ 10).halt = some .err := by
+  decide +kernel
+
 end Props.C07
